@@ -17,6 +17,9 @@ use vcommon::{Ctx, Fail, Obs};
 pub struct SemCase {
     pub prog: Prog,
     pub scripts: Vec<Script>,
+    /// generator annotations used by non-triviality rules (name, node index / count)
+    #[serde(default)]
+    pub tags: Vec<(String, i64)>,
 }
 
 pub struct Prepared {
@@ -101,7 +104,7 @@ pub fn prepare_opts(case: SemCase, stats: &mut SemStats, probe: bool) -> Option<
             }
         }
     }
-    Some(Prepared { case: SemCase { prog: case.prog, scripts }, analysis, expected, shape, dfir: d.text })
+    Some(Prepared { case: SemCase { prog: case.prog, scripts, tags: case.tags }, analysis, expected, shape, dfir: d.text })
 }
 
 pub fn note_roles(cov: &mut Coverage, p: &Prepared) {
